@@ -185,14 +185,27 @@ package graphql
 //@   loop 1 ensures !(path == nil && eCtx.plan != nil && eCtx.plan.isMutation) ==> calls("dethunkValueDepthFirst") == 0
 //@   at[C13] call dethunkValueDepthFirst: assert arg0 == lastresult("resolvePlannedField")
 
+// Forcing (F51): a deferred value is forced until what it yields is no longer deferred (a thunk may produce a
+// thunk): the given thunk is called exactly once, every thunk it leads to exactly once, and the result is the
+// last value produced, never a thunk. The walks below force a position once THROUGH this function and descend
+// into / return the value it produced (not the thunk).
+//@ func forceThunk
+//@   props C09 C04 C13 C12 C01 C20
+//@   nosafety
+//@   assigns nothing
+//@   ensures !typeis(result, "func() interface{}")
+//@   ensures calls("f") == 1
+//@   at call g: assert typeis(v, "func() interface{}") && g == as(v, "func() interface{}")
+//@   at return: assert result == v
+//@   loop 1 ensures calls("g") == atloop(1, calls("g")) + 1 && v == lastresult("g")
 // Forcing: a thunk is called exactly once, the value it produced (not the thunk) is what is
 // descended into and returned.
 //@ func dethunkValueDepthFirst
 //@   props C13 C09 C12
 //@   nosafety
 //@   assigns class:M|string|interface, class:E|interface, class:E|string
-//@   ensures old(typeis(v, "func() interface{}")) ==> calls("f") == 1 && result == lastresult("f")
-//@   ensures !old(typeis(v, "func() interface{}")) ==> calls("f") == 0 && result == old(v)
+//@   ensures old(typeis(v, "func() interface{}")) ==> calls("forceThunk") == 1 && result == lastresult("forceThunk")
+//@   ensures !old(typeis(v, "func() interface{}")) ==> calls("forceThunk") == 0 && result == old(v)
 //@   ensures typeis(result, "map[string]interface{}") ==> calls("dethunkMapDepthFirst") == 1 && calls("dethunkListDepthFirst") == 0
 //@   ensures typeis(result, "[]interface{}") ==> calls("dethunkListDepthFirst") == 1 && calls("dethunkMapDepthFirst") == 0
 //@   at call dethunkMapDepthFirst: assert typeis(v, "map[string]interface{}") && arg0 == as(v, "map[string]interface{}")
@@ -218,25 +231,25 @@ package graphql
 //@   assigns class:M|string|interface, class:E|interface, class:E|string
 //@   loop[C12,C13] 1 over lastresult("responseKeysInOrder")
 //@   loop[C12] 1 ordered
-//@   loop 1 ensures calls("f") <= atloop(1, calls("f")) + 1
-//@   loop 1 ensures calls("f") > atloop(1, calls("f")) && typeis(lastresult("f"), "map[string]interface{}") ==> calls("dethunkMapDepthFirst") == atloop(1, calls("dethunkMapDepthFirst")) + 1
-//@   loop 1 ensures calls("f") > atloop(1, calls("f")) && typeis(lastresult("f"), "[]interface{}") ==> calls("dethunkListDepthFirst") == atloop(1, calls("dethunkListDepthFirst")) + 1
-//@   at call dethunkMapDepthFirst: assert calls("f") > atloop(1, calls("f")) ==> arg0 == as(lastresult("f"), "map[string]interface{}")
-//@   at call dethunkListDepthFirst: assert calls("f") > atloop(1, calls("f")) ==> arg0 == as(lastresult("f"), "[]interface{}")
-//@   at call dethunkMapDepthFirst: assert calls("f") == atloop(1, calls("f")) ==> arg0 == as(v, "map[string]interface{}")
-//@   at call dethunkListDepthFirst: assert calls("f") == atloop(1, calls("f")) ==> arg0 == as(v, "[]interface{}")
+//@   loop 1 ensures calls("forceThunk") <= atloop(1, calls("forceThunk")) + 1
+//@   loop 1 ensures calls("forceThunk") > atloop(1, calls("forceThunk")) && typeis(lastresult("forceThunk"), "map[string]interface{}") ==> calls("dethunkMapDepthFirst") == atloop(1, calls("dethunkMapDepthFirst")) + 1
+//@   loop 1 ensures calls("forceThunk") > atloop(1, calls("forceThunk")) && typeis(lastresult("forceThunk"), "[]interface{}") ==> calls("dethunkListDepthFirst") == atloop(1, calls("dethunkListDepthFirst")) + 1
+//@   at call dethunkMapDepthFirst: assert calls("forceThunk") > atloop(1, calls("forceThunk")) ==> arg0 == as(lastresult("forceThunk"), "map[string]interface{}")
+//@   at call dethunkListDepthFirst: assert calls("forceThunk") > atloop(1, calls("forceThunk")) ==> arg0 == as(lastresult("forceThunk"), "[]interface{}")
+//@   at call dethunkMapDepthFirst: assert calls("forceThunk") == atloop(1, calls("forceThunk")) ==> arg0 == as(v, "map[string]interface{}")
+//@   at call dethunkListDepthFirst: assert calls("forceThunk") == atloop(1, calls("forceThunk")) ==> arg0 == as(v, "[]interface{}")
 
 //@ func dethunkListDepthFirst
 //@   props C13 C09
 //@   nosafety
 //@   assigns class:M|string|interface, class:E|interface, class:E|string
-//@   loop 1 ensures calls("f") <= atloop(1, calls("f")) + 1
-//@   loop 1 ensures calls("f") > atloop(1, calls("f")) && typeis(lastresult("f"), "map[string]interface{}") ==> calls("dethunkMapDepthFirst") == atloop(1, calls("dethunkMapDepthFirst")) + 1
-//@   loop 1 ensures calls("f") > atloop(1, calls("f")) && typeis(lastresult("f"), "[]interface{}") ==> calls("dethunkListDepthFirst") == atloop(1, calls("dethunkListDepthFirst")) + 1
-//@   at call dethunkMapDepthFirst: assert calls("f") > atloop(1, calls("f")) ==> arg0 == as(lastresult("f"), "map[string]interface{}")
-//@   at call dethunkListDepthFirst: assert calls("f") > atloop(1, calls("f")) ==> arg0 == as(lastresult("f"), "[]interface{}")
-//@   at call dethunkMapDepthFirst: assert calls("f") == atloop(1, calls("f")) ==> arg0 == as(v, "map[string]interface{}")
-//@   at call dethunkListDepthFirst: assert calls("f") == atloop(1, calls("f")) ==> arg0 == as(v, "[]interface{}")
+//@   loop 1 ensures calls("forceThunk") <= atloop(1, calls("forceThunk")) + 1
+//@   loop 1 ensures calls("forceThunk") > atloop(1, calls("forceThunk")) && typeis(lastresult("forceThunk"), "map[string]interface{}") ==> calls("dethunkMapDepthFirst") == atloop(1, calls("dethunkMapDepthFirst")) + 1
+//@   loop 1 ensures calls("forceThunk") > atloop(1, calls("forceThunk")) && typeis(lastresult("forceThunk"), "[]interface{}") ==> calls("dethunkListDepthFirst") == atloop(1, calls("dethunkListDepthFirst")) + 1
+//@   at call dethunkMapDepthFirst: assert calls("forceThunk") > atloop(1, calls("forceThunk")) ==> arg0 == as(lastresult("forceThunk"), "map[string]interface{}")
+//@   at call dethunkListDepthFirst: assert calls("forceThunk") > atloop(1, calls("forceThunk")) ==> arg0 == as(lastresult("forceThunk"), "[]interface{}")
+//@   at call dethunkMapDepthFirst: assert calls("forceThunk") == atloop(1, calls("forceThunk")) ==> arg0 == as(v, "map[string]interface{}")
+//@   at call dethunkListDepthFirst: assert calls("forceThunk") == atloop(1, calls("forceThunk")) ==> arg0 == as(v, "[]interface{}")
 
 // (verified, was trusted) listing possible types reads the tables and writes nothing: not the
 // implementation lists (sorted once, when they are built), not the schema. Union.Types below is the
@@ -1813,15 +1826,15 @@ package graphql
 //@   nosafety
 //@   loop[C12] 1 over lastresult("responseKeysInOrder")
 //@   loop[C12] 1 ordered
-//@   loop 1 ensures calls("f") <= atloop(1, calls("f")) + 1
-//@   loop 1 ensures calls("f") > atloop(1, calls("f")) && (typeis(lastresult("f"), "map[string]interface{}") || typeis(lastresult("f"), "[]interface{}")) ==> calls("push") == atloop(1, calls("push")) + 1
-//@   loop 1 ensures calls("f") == atloop(1, calls("f")) && (typeis(v, "map[string]interface{}") || typeis(v, "[]interface{}")) ==> calls("push") == atloop(1, calls("push")) + 1
+//@   loop 1 ensures calls("forceThunk") <= atloop(1, calls("forceThunk")) + 1
+//@   loop 1 ensures calls("forceThunk") > atloop(1, calls("forceThunk")) && (typeis(lastresult("forceThunk"), "map[string]interface{}") || typeis(lastresult("forceThunk"), "[]interface{}")) ==> calls("push") == atloop(1, calls("push")) + 1
+//@   loop 1 ensures calls("forceThunk") == atloop(1, calls("forceThunk")) && (typeis(v, "map[string]interface{}") || typeis(v, "[]interface{}")) ==> calls("push") == atloop(1, calls("push")) + 1
 //@ func dethunkListBreadthFirst
 //@   props C09 C04 C01 C20
 //@   nosafety
-//@   loop 1 ensures calls("f") <= atloop(1, calls("f")) + 1
-//@   loop 1 ensures calls("f") > atloop(1, calls("f")) && (typeis(lastresult("f"), "map[string]interface{}") || typeis(lastresult("f"), "[]interface{}")) ==> calls("push") == atloop(1, calls("push")) + 1
-//@   loop 1 ensures calls("f") == atloop(1, calls("f")) && (typeis(v, "map[string]interface{}") || typeis(v, "[]interface{}")) ==> calls("push") == atloop(1, calls("push")) + 1
+//@   loop 1 ensures calls("forceThunk") <= atloop(1, calls("forceThunk")) + 1
+//@   loop 1 ensures calls("forceThunk") > atloop(1, calls("forceThunk")) && (typeis(lastresult("forceThunk"), "map[string]interface{}") || typeis(lastresult("forceThunk"), "[]interface{}")) ==> calls("push") == atloop(1, calls("push")) + 1
+//@   loop 1 ensures calls("forceThunk") == atloop(1, calls("forceThunk")) && (typeis(v, "map[string]interface{}") || typeis(v, "[]interface{}")) ==> calls("push") == atloop(1, calls("push")) + 1
 //@ func dethunkQueue.push
 //@   props C02
 //@   nosafety
